@@ -210,7 +210,7 @@ Lemma create_table_shape prof k tn cols k' r :
   pkg_create_table prof k tn cols = (k', r) ->
   (k' = k /\ r <> Ok tt) \/ k_fin k' = true.
 Proof.
-  unfold pkg_create_table.
+  unfold pkg_create_table, pkg_create_table_with.
   destruct (negb (is_valid_tname tn)); [early|].
   destruct (existsb (str_eqb tn) CREATE_TABLE_EXTRA_RESERVED); [early|].
   destruct cols as [|c0 cols0]; [early|].
@@ -224,6 +224,7 @@ Proof.
   try (destruct (rows_fit (find_table (k_tabs k) TABLES_TABLE_NAME) _) as [[|]| |]);
   try (destruct (vrows_fit tn (find_table (k_tabs k) VALIDATION_TABLE_NAME) _) as [[|]| |]);
   try early.
+  destruct (if CREATE_TABLE_DRY_RUNS then _ else _) as [ud| |]; [|early|early].
   destruct (pkg_insert prof k COLUMNS_TABLE_NAME _) as [k1 r1] eqn:E1.
   apply insert_fin in E1.
   destruct r1 as [u1| |]; [|late|late].
@@ -317,7 +318,7 @@ Theorem create_table_arg_errors : forall prof k tn cols,
    find_table (k_tabs k) tn <> None) ->
   pkg_create_table prof k tn cols = (k, Err).
 Proof.
-  intros prof k tn cols H. unfold pkg_create_table.
+  intros prof k tn cols H. unfold pkg_create_table, pkg_create_table_with.
   destruct (is_valid_tname tn) eqn:E1; cbn [negb]; [|reflexivity].
   destruct (existsb (str_eqb tn) CREATE_TABLE_EXTRA_RESERVED) eqn:E2; [reflexivity|].
   destruct cols as [|c0 cols0]; [reflexivity|].
